@@ -131,8 +131,9 @@ def shrink(prop, oracle, case, max_execs=150, max_s=60.0, witness=None):
     for idx, op in enumerate(best["ops"]):
         if op[0] == "solve" and budget.ok():
             for key in ("x0", "tol", "maxiter", "use_hessian"):
-                if key in op[2] and budget.ok():
-                    cand = copy.deepcopy(best)
+                if key in best["ops"][idx][2] and budget.ok():
+                    # (through JSON: generated cases may hold one argument dict in two ops)
+                    cand = json.loads(json.dumps(best))
                     del cand["ops"][idx][2][key]
                     f = fails(prop, oracle, cand, budget)
                     if f is not None:
